@@ -1,7 +1,9 @@
 //! clustersim: engines C (real sierradb-cluster components under a tokio runtime with simulated
 //! clock, hook points and transport) and E (real TopologyManager / Behaviour glue over a bus).
 
+mod c07;
 mod c08;
+mod c09;
 mod c10;
 mod c12;
 mod c14;
@@ -28,6 +30,15 @@ impl Engine for ClusterSimEngine {
 
     fn properties() -> Vec<PropertyInfo> {
         vec![PropertyInfo {
+            id: "C07",
+            level: "exploration",
+            rule: "per run one real ClusterActor with configured replication factor in {1,2,3,5} (quorum 1..3) over a store populated with 1-18 single/multi-event transactions across 1-3 streams carrying arbitrary confirmation counts (below/at/above quorum); then a PRNG interleaving of real ConfirmTransaction messages (raising counts, stale lower counts, duplicates, any order), node restarts, and reads of every kind: ReadEvent of any event, ReadPartition and ReadStream with PRNG start/end/count (including ranges that straddle the watermark and count limits inside transactions), GetPartitionSequence, GetStreamVersion. The model keeps the maximum count delivered per transaction; its watermark is the length of the longest prefix whose transactions all carry a quorum count. Every answer is checked: no returned event, sequence or version at or beyond the model watermark. Non-trivial = the final watermark lies strictly inside the log and a multi-event transaction exists.",
+            quick_runs: 600,
+            thorough_runs: 20000,
+            real_components: &["sierradb_cluster::ClusterActor read handlers (ReadEvent, ReadPartition, ReadStream, GetPartitionSequence, GetStreamVersion), ConfirmTransaction handler", "ConfirmationActor / BucketConfirmationManager / AtomicWatermark", "sierradb::Database", "TopologyManager inside the actor's swarm (single node)"],
+            stub_components: &["no peers: forwarding of reads to other replicas is not exercised here (it is in the C10/C11 cluster runs)"],
+            assumptions: &["stored confirmation counts never decrease (C08), so the model keeps the maximum count delivered"],
+        }, PropertyInfo {
             id: "C08",
             level: "fault_enumeration",
             rule: "per run: rf in {1,2,3,5}, a partition of 2-16 single/multi-event transactions stored in a real Database with target counts below/at/above quorum, and a PRNG permutation of confirmation deliveries (final count of every transaction at least once plus stale lower counts, duplicates and single-version deliveries); the on-disk count is written before each update is reported. Live oracle after every update (monotone, <= prefix of versions whose maximum reported count reaches quorum, = that prefix at the end). Crash enumeration: the confirmation directory is snapshotted at every step of every persist_bucket_state (hook) plus every 32-byte prefix of the temp file; a fresh manager is initialised from each snapshot against the database. Non-trivial = a stale lower count delivered after a higher one above the watermark and a snapshot between the two renames.",
@@ -36,6 +47,15 @@ impl Engine for ClusterSimEngine {
             real_components: &["sierradb_cluster::confirmation::BucketConfirmationManager / PartitionConfirmationState / AtomicWatermark", "sierradb::Database (set_confirmations, read_partition)", "tokio::fs on the blocking pool (awaited)"],
             stub_components: &["ConfirmationActor mailbox (the manager is driven directly)", "wall/monotonic clock (simulated through the hook shim)"],
             assumptions: &["deliveries follow ConfirmTransaction's order: on-disk count first, then the update"],
+        }, PropertyInfo {
+            id: "C09",
+            level: "exploration",
+            rule: "per run 1 or 3 real ClusterActors (rf 1 or 3), real client writes (single/multi-event, 1-2 partition keys, 1-2 streams, in one run out of four preceded by 55-115 writes to one stream so that history spans several read batches) and a subscriber played by the simulator: real Subscribe messages for partition, multi-partition, all-partition, stream and multi-stream matchers with start None / 0 / k and window 1/2/5/1000 on any node, acknowledgements with PRNG lag, time advances, and for 3 nodes message loss, delay, stragglers (late ConfirmTransaction leaves watermark holes), link cuts and isolation. After every operation the update channels are drained: cursors consecutive, per partition sequences / per stream versions strictly consecutive from the start position (no gap, duplicate or reordering), only matching events, unacknowledged deliveries <= window. After faults stop and everything is acknowledged: every delivered event lies inside the node's confirmed prefix and equals the log, and everything confirmed from the start position (or, for a from-now subscription, from what was confirmed at subscribe time) has been delivered. Non-trivial = at least one subscription received records and at least two writes were acknowledged.",
+            quick_runs: 400,
+            thorough_runs: 12000,
+            real_components: &["sierradb_cluster::subscription (SubscriptionManager, Subscription::run/read_*_history/send_record, SubscriptionMatcher)", "ConfirmationActor broadcast (UpdateConfirmationWithBroadcast / UpdateConfirmation)", "ClusterActor write and confirmation paths, Database, topology (as C10)"],
+            stub_components: CLUSTER_STUB,
+            assumptions: &["the RESP layer (ESUB/EPSUB parsing and acknowledgement commands) is not in the loop: the simulator holds the update channel and the acknowledgement watch channel that the server connection would hold"],
         }, PropertyInfo {
             id: "C10",
             level: "exploration",
@@ -77,7 +97,9 @@ impl Engine for ClusterSimEngine {
 
     fn plan(prop: &str, tier: Tier, run_seed: u64) -> Value {
         match prop {
+            "C07" => c07::plan(tier, run_seed),
             "C08" => c08::plan(tier, run_seed),
+            "C09" => c09::plan(tier, run_seed),
             "C10" | "C11" => c10::plan(tier, run_seed),
             "C12" => c12::plan(tier, run_seed),
             "C14" => c14::plan(tier, run_seed),
@@ -87,7 +109,9 @@ impl Engine for ClusterSimEngine {
 
     fn execute(prop: &str, plan: &Value) -> RunOutcome {
         match prop {
+            "C07" => c07::execute(plan),
             "C08" => c08::execute(plan),
+            "C09" => c09::execute(plan),
             "C10" | "C11" => c10::execute(prop, plan),
             "C12" => c12::execute(plan),
             "C14" => c14::execute(plan),
